@@ -82,6 +82,9 @@ func genProfile(t *simrt.Tape, o genOpts) *profile.Profile {
 				m.BuildID = "zz/../.."
 			case 3:
 				m.File = oddStrings[t.Choose(K, len(oddStrings))]
+				if t.Bool(K, 40) {
+					m.File = dictStr(t, m.File)
+				}
 			case 4:
 				m.File = ""
 				m.BuildID = ""
@@ -105,6 +108,9 @@ func genProfile(t *simrt.Tape, o genOpts) *profile.Profile {
 		}
 		if o.odd && t.Bool(K, 30) {
 			name = oddStrings[t.Choose(K, len(oddStrings))]
+			if t.Bool(K, 30) {
+				name = dictStr(t, name)
+			}
 		}
 		f := &profile.Function{ID: uint64(i + 1), Name: name, SystemName: name, Filename: fileNames[t.Choose(K, len(fileNames))], StartLine: int64(10 * (i + 1))}
 		if o.odd && t.Bool(K, 20) {
@@ -186,6 +192,9 @@ func genProfile(t *simrt.Tape, o genOpts) *profile.Profile {
 				v := vals[t.Choose(K, len(vals))]
 				if o.odd && t.Bool(K, 30) {
 					v = oddStrings[1+t.Choose(K, len(oddStrings)-1)]
+					if t.Bool(K, 30) {
+						k, v = dictStr(t, k), dictStr(t, v)
+					}
 				}
 				s.Label[k] = append(s.Label[k], v)
 			}
